@@ -68,9 +68,37 @@ example : (run Fixes.all { clientResp := [[.ret (.stage 1)], [.nop]], reqResp :=
                            transport := [.fail (.stage 2), .fail (.stage 3)], maxRetries := 1 }).atts.map (·.evs.filter (!·.isRaised))
     = [[.builtin, .send, .cResp 0, .cResp 1, .rResp 0], [.builtin, .send, .cResp 0, .cResp 1, .rResp 0]] := by decide
 
-/-- The number of attempts never exceeds `MaxRetries + 1`. -/
-theorem attempts_bound (fx : Fixes) (s : Stack) : (run fx s).atts.length ≤ s.maxRetries + 1 := by
-  rw [run_atts]; exact callDo_atts_length fx s
+/-- The script ran out under an unbounded retry (model artefact, see `Stack.fuel`). -/
+def isExhausted : Out → Bool
+  | .exhausted _ => true
+  | _ => false
+
+/-- With `MaxRetries ≥ 0` the number of attempts never exceeds `MaxRetries + 1` … -/
+theorem attempts_bound (fx : Fixes) (s : Stack) (hb : s.unbounded = false) :
+    (run fx s).atts.length ≤ s.maxRetries + 1 := by
+  rw [run_atts]; exact callDo_atts_length fx s hb
+
+/-- … and the call always comes to an end; -/
+theorem bounded_call_ends (fx : Fixes) (s : Stack) (hb : s.unbounded = false) :
+    isExhausted (run fx s) = false := by
+  have h := callDo_bounded_not_exhausted fx s hb
+  unfold run
+  simp only [h, Bool.false_eq_true, if_false]
+  split
+  · rfl
+  · split
+    · rfl
+    · split
+      · rfl
+      · split <;> rfl
+
+/-- with a negative `MaxRetries` nothing bounds the attempts but the script itself. -/
+theorem attempts_le_script (fx : Fixes) (s : Stack) : (run fx s).atts.length ≤ s.fuelFor := by
+  rw [run_atts]; exact callDo_atts_le_fuel fx s
+
+example : (run Fixes.all { unbounded := true, fuel := 5, transport := [.fail (.stage 1), .fail (.stage 2), .fail .ctxCanceled] }).atts.length = 3 := by
+  decide
+example : isExhausted (run Fixes.all { unbounded := true, fuel := 4, transport := [] }) = true := by decide
 
 /-! ### the error contract -/
 
@@ -81,12 +109,16 @@ request middleware failing on a retry. (`Must*` panicking with the call's error 
 documented contract of those helpers, a different outcome: `Out.mustPanic`.) -/
 theorem pipeline_never_panics (s : Stack) : (run Fixes.all s).isCrash = false := by
   obtain ⟨hc, hr⟩ := callDo_some Fixes.all rfl rfl s
-  obtain ⟨r, hr⟩ := Option.isSome_iff_exists.mp hr
   unfold run
-  simp only [hc, hr, Bool.false_eq_true, if_false]
+  simp only [hc, Bool.false_eq_true, if_false]
   split
   · rfl
-  · split <;> rfl
+  · rename_i hex
+    obtain ⟨r, hr⟩ := Option.isSome_iff_exists.mp (hr (by simpa using hex))
+    simp only [hr]
+    split
+    · rfl
+    · split <;> rfl
 
 /-- The code as found DOES panic (DESIGN section 5 row 6): a wrapper returning `(nil, err)` with
 one retry allowed. -/
@@ -108,18 +140,32 @@ theorem resp_nonnil_and_err_agree (s : Stack) :
     match run Fixes.all s with
     | .ret resp err _ _ => ∃ r, resp = some r ∧ err = r.err ∧ (s.entry = .must → err = none)
     | .mustPanic e _ _ => s.entry = .must ∧ ∃ r, (callDo Fixes.all s).resp = some r ∧ r.err = some e
-    | .crash _ => False := by
+    | .crash _ => False
+    | .exhausted _ => s.unbounded = true := by
   obtain ⟨hc, hr⟩ := callDo_some Fixes.all rfl rfl s
-  obtain ⟨r, hr⟩ := Option.isSome_iff_exists.mp hr
   unfold run
-  simp only [hc, hr, Bool.false_eq_true, if_false]
-  cases he : s.entry <;> simp only []
-  · exact ⟨r, rfl, rfl, by simp⟩
-  · exact ⟨r, rfl, rfl, by simp⟩
-  · exact ⟨r, rfl, rfl, by simp⟩
-  · cases hre : r.err with
-    | none => exact ⟨r, rfl, by simp [hre], by simp⟩
-    | some e => exact ⟨by simp, r, rfl, hre⟩
+  simp only [hc, Bool.false_eq_true, if_false]
+  cases hex : (callDo Fixes.all s).exhausted
+  · obtain ⟨r, hr⟩ := Option.isSome_iff_exists.mp (hr hex)
+    simp only [hr, Bool.false_eq_true, if_false]
+    cases he : s.entry <;> simp only []
+    · exact ⟨r, rfl, rfl, by simp⟩
+    · exact ⟨r, rfl, rfl, by simp⟩
+    · exact ⟨r, rfl, rfl, by simp⟩
+    · cases hre : r.err with
+      | none => exact ⟨r, rfl, by simp [hre], by simp⟩
+      | some e => exact ⟨by simp, r, rfl, hre⟩
+  · simp only [if_true]
+    cases hb : s.unbounded
+    · have := callDo_bounded_not_exhausted Fixes.all s hb
+      rw [this] at hex; cases hex
+    · rfl
+
+/-- The same for a call whose attempt loop is unbounded (`SetRetryCount(-1)`), whose context is
+cancelled mid-flight or done while waiting: every outcome script that lets the call end. -/
+example : run Fixes.all { entry := .verb, hook := true, unbounded := true, fuel := 9,
+                          transport := [.fail (.stage 1), .fail (.stage 2)], ctxDone := [false, true] }
+    matches .ret (some { err := some .ctxDone, .. }) (some .ctxDone) 1 [_, _] := by decide
 
 /-- **onError_once** — the error hook runs exactly once when a verb-style call (`Send`, `Get`,
 `Post`, … and the `Must*` helpers built on them) ends in error and a hook is installed, and
@@ -129,9 +175,11 @@ theorem onError_once (fx : Fixes) (s : Stack) :
     match run fx s with
     | .ret _ err hooks _ => hooks = if s.entry ≠ .do_ ∧ s.hook = true ∧ err ≠ none then 1 else 0
     | .mustPanic _ hooks _ => hooks = if s.hook = true then 1 else 0
-    | .crash _ => True := by
+    | .crash _ => True
+    | .exhausted _ => True := by
   unfold run
   cases hc : (callDo fx s).crash <;> simp only [hc, Bool.false_eq_true, if_false, if_true]
+  cases hx : (callDo fx s).exhausted <;> simp only [Bool.false_eq_true, if_false, if_true]
   cases hr : (callDo fx s).resp with
   | none => simp only []
   | some r => cases he : s.entry <;> cases hh : s.hook <;> cases hre : r.err <;> simp [hre]
@@ -146,14 +194,25 @@ def callErr : Out → Option Err
   | .ret _ err _ _ => err
   | .mustPanic e _ _ => some e
   | .crash _ => none
+  | .exhausted _ => none
 
-theorem run_callErr (s : Stack) : ∃ r, (callDo Fixes.all s).resp = some r ∧ callErr (run Fixes.all s) = r.err := by
+theorem run_callErr (s : Stack) (hex : (callDo Fixes.all s).exhausted = false) :
+    ∃ r, (callDo Fixes.all s).resp = some r ∧ callErr (run Fixes.all s) = r.err := by
   obtain ⟨hc, hr⟩ := callDo_some Fixes.all rfl rfl s
-  obtain ⟨r, hr⟩ := Option.isSome_iff_exists.mp hr
+  obtain ⟨r, hr⟩ := Option.isSome_iff_exists.mp (hr hex)
   refine ⟨r, hr, ?_⟩
   unfold run
-  simp only [hc, hr, Bool.false_eq_true, if_false]
+  simp only [hc, hex, hr, Bool.false_eq_true, if_false]
   cases he : s.entry <;> cases hre : r.err <;> simp [callErr]
+
+theorem run_exhausted (fx : Fixes) (s : Stack) : isExhausted (run fx s) = false → (callDo fx s).crash = false →
+    (callDo fx s).exhausted = false := by
+  intro h hc
+  unfold run at h
+  simp only [hc, Bool.false_eq_true, if_false] at h
+  cases hx : (callDo fx s).exhausted
+  · rfl
+  · simp [hx, isExhausted] at h
 
 /-- **stage_error_is_seen** — for every stack in which no stage deliberately suppresses an
 error (no middleware clears `resp.Err`, no wrapper swallows the inner error or answers
@@ -163,13 +222,14 @@ request-level response middleware returning an error or setting `resp.Err`, a wr
 digest middleware — the caller sees an error; (2) the error the caller sees is one that a stage
 raised during the call (or the builder / unreplayable-body error of `Do`, before any attempt).
 Which one wins when several stages fail is stated by the `precedence_*` theorems. -/
-theorem stage_error_is_seen (s : Stack) (hl : s.Loud) :
+theorem stage_error_is_seen (s : Stack) (hl : s.Loud) (hend : isExhausted (run Fixes.all s) = false) :
     (∀ tl, (run Fixes.all s).atts.getLast? = some tl → raisedOf tl.evs ≠ [] →
         callErr (run Fixes.all s) ≠ none) ∧
     (∀ e, callErr (run Fixes.all s) = some e →
-        e ∈ allRaised (run Fixes.all s).atts ∨
+        e ∈ allRaised (run Fixes.all s).atts ∨ e = .ctxDone ∨
         ((run Fixes.all s).atts = [] ∧ (e = .builder ∨ e = .unreplayable))) := by
-  obtain ⟨r, hr, hce⟩ := run_callErr s
+  have hex := run_exhausted Fixes.all s hend (callDo_some Fixes.all rfl rfl s).1
+  obtain ⟨r, hr, hce⟩ := run_callErr s hex
   rw [run_atts, hce]
   rcases callDo_cases Fixes.all s with ⟨e0, he0, hcd⟩ | hcd
   · rw [hcd] at hr ⊢
@@ -177,30 +237,33 @@ theorem stage_error_is_seen (s : Stack) (hl : s.Loud) :
     refine ⟨by simp, ?_⟩
     intro e he
     simp only [Option.some.injEq] at he; subst he
-    exact Or.inr ⟨rfl, he0⟩
-  · rw [hcd] at hr ⊢
-    obtain ⟨r', tl, h1, h2, h3, h4⟩ := doLoop_seen s hl s.maxRetries 0 none
+    exact Or.inr (Or.inr ⟨rfl, he0⟩)
+  · rw [hcd] at hr hex ⊢
+    obtain ⟨r', tl, h1, h2, h3, h4⟩ := doLoop_seen s hl s.fuelFor 0 none hex
     rw [h1] at hr; cases hr
     refine ⟨?_, ?_⟩
     · intro tl' htl; rw [h2] at htl; cases htl; exact h3
     · intro e he
-      rcases h4 e he with h | h
+      rcases h4 e he with h | h | h
       · exact Or.inl h
       · simp at h
+      · exact Or.inr (Or.inl h)
 
 /-- Corollary: when every error raised during the call is the same `e` and the final attempt
 raised it, the caller sees exactly `e`. -/
-theorem single_error_is_the_error (s : Stack) (hl : s.Loud) (e : Err) (tl : Att)
+theorem single_error_is_the_error (s : Stack) (hl : s.Loud) (hend : isExhausted (run Fixes.all s) = false)
+    (hctx : ∀ a, s.ctxDoneAt a = false) (e : Err) (tl : Att)
     (hlast : (run Fixes.all s).atts.getLast? = some tl) (hraised : raisedOf tl.evs ≠ [])
     (hsame : ∀ e' ∈ allRaised (run Fixes.all s).atts, e' = e) :
-    callErr (run Fixes.all s) = some e := by
-  obtain ⟨h1, h2⟩ := stage_error_is_seen s hl
+    callErr (run Fixes.all s) = some e ∨ callErr (run Fixes.all s) = some .ctxDone := by
+  obtain ⟨h1, h2⟩ := stage_error_is_seen s hl hend
   have hne := h1 tl hlast hraised
   cases hc : callErr (run Fixes.all s) with
   | none => exact absurd hc hne
   | some e' =>
-    rcases h2 e' hc with h | ⟨h, _⟩
-    · rw [hsame e' h]
+    rcases h2 e' hc with h | h | ⟨h, _⟩
+    · left; rw [hsame e' h]
+    · right; rw [h]
     · rw [h] at hlast; simp at hlast
 
 example : callErr (run Fixes.all { udReq := [[.ok, .fail (.stage 7)]], transport := [.fail (.stage 7)], maxRetries := 1 })
@@ -210,7 +273,7 @@ example : callErr (run Fixes.all { udReq := [[.ok, .fail (.stage 7)]], transport
 def exLoud : Stack :=
   { udReq := [[.ok], [.ok, .fail (.stage 2)]],
     wrappers := [[.postErr (.stage 3)], [.pass, .shortNil (.stage 4)]],
-    transport := [.resp (⟨500, [], none, true, false, false⟩), .fail (.stage 5)],
+    transport := [.resp { status := 500, ct := [], custom := none, readOK := true, jsonOK := false, xmlOK := false }, .fail (.stage 5)],
     clientResp := [[.set (.stage 6)]],
     reqResp := [[.mw (.ret (.stage 7))], [.digest true (.fail (.stage 8))]],
     errorTarget := true,
@@ -290,15 +353,27 @@ def callResp : Out → Option Resp
   | .ret r _ _ _ => r
   | _ => none
 
+theorem download_off (s : Stack) (a : Nat) (r : Resp) (h : s.save = false) : download s a r = (r, []) := by
+  have h1 : saveErr s a r = none := by unfold saveErr; split <;> simp [h]
+  have h2 : saved s a r = false := by simp [saved, h]
+  unfold download
+  split
+  · rfl
+  · split
+    · rfl
+    · rw [h1, h2]; simp
+
 theorem callResp_callDo (fx : Fixes) (s : Stack) (r : Resp) (h : callResp (run fx s) = some r) :
     (callDo fx s).resp = some r := by
   unfold run at h
   cases hc : (callDo fx s).crash <;> simp only [hc, Bool.false_eq_true, if_false, if_true] at h
-  · cases hr : (callDo fx s).resp with
-    | none => simp [hr, callResp] at h
-    | some r0 =>
-      simp only [hr] at h
-      cases he : s.entry <;> cases hre : r0.err <;> simp_all [callResp]
+  · cases hx : (callDo fx s).exhausted <;> simp only [hx, Bool.false_eq_true, if_false, if_true] at h
+    · cases hr : (callDo fx s).resp with
+      | none => simp [hr, callResp] at h
+      | some r0 =>
+        simp only [hr] at h
+        cases he : s.entry <;> cases hre : r0.err <;> simp_all [callResp]
+    · simp [callResp] at h
   · simp [callResp] at h
 
 /-- **success_bound_iff (call level)** — on the response any call returns, for every stack: if
@@ -402,7 +477,8 @@ binds nothing — provided no later client-level middleware overrides it (last e
 `precedence_client_loop_last_wins`). By `stage_error_is_seen` the caller then sees an error. -/
 theorem unmarshal_failure_surfaces_roundtrip (s : Stack) (a : Nat) (h : Http) (t : Target)
     (hg : s.getBodyAt a = false) (ht : s.transportAt a = .resp h) (hsel : targetFor s h = some t)
-    (hread : h.readOK = true) (hbad : codecOK h = false) (hquiet : ∀ m ∈ s.clientAt a, m = .nop) :
+    (hread : h.bodyOK = true) (hbad : codecOK h = false) (hquiet : ∀ m ∈ s.clientAt a, m = .nop)
+    (hsave : s.save = false) :
     (clientRoundTrip s a).err = some .unmarshal ∧
     ∃ r, (clientRoundTrip s a).resp = some r ∧ r.err = some .unmarshal ∧ r.slots = {} ∧
       .raised .unmarshal ∈ (clientRoundTrip s a).evs := by
@@ -429,7 +505,7 @@ theorem unmarshal_failure_surfaces_roundtrip (s : Stack) (a : Nat) (h : Http) (t
   unfold clientRoundTrip
   simp only [hg, Bool.false_eq_true, if_false, hex, hr']
   have hret : (parseResp s r').ret = some .unmarshal := u1
-  simp only [hret]
+  simp only [hret, download_off s a _ hsave, List.append_nil]
   obtain ⟨c1, c2⟩ := clientLoop_same (s.clientAt a) 0 ({ (parseResp s r').resp with err := some .unmarshal } : Resp)
   have c3 := precedence_client_loop_last_wins (s.clientAt a) 0 ({ (parseResp s r').resp with err := some .unmarshal } : Resp)
   rw [hfold] at c3
